@@ -104,3 +104,99 @@ theorem c13_specification_rejects_dissent :
     Scenario.dissent_fails]
 
 end InToto.VerifySpec
+
+namespace InToto.VerifySpec
+open InToto InToto.Verify InToto.Rules InToto.Threshold
+
+variable {K : Type}
+
+/-! ### the pipeline properties as corollaries of the refinement
+
+Each reads its clause off `Accepted`; the per-property files prove the same facts directly from the
+model, with more detail (which file, which signature). -/
+
+/-- C06 from the specification: an accepted layout has not expired -/
+theorem c06_accepted_layout_is_unexpired {env : Env K} {ord : Ord} (hord : ord.Valid)
+    {fuel : Nat} {path : List Str} {b : Block K} {keys : List K} {dir : Dir K} {name : Str} {out : Link}
+    (h : (verify env ord (fuel + 1) path b keys dir name).1 = .ok out) :
+    ∃ L, b.signed = .layout L ∧ ¬ L.expires < env.now path := by
+  obtain ⟨L, _, _, _, hb, _, hexp, _⟩ := ((c02_success_iff_every_clause_holds env ord hord fuel path b keys dir name out).mp h).clauses
+  exact ⟨L, hb, hexp⟩
+
+/-- C07 from the specification: the links standing for the counted evidence of a multi-party step agree
+    pairwise -/
+theorem c07_accepted_multi_party_links_agree {env : Env K} {ord : Ord} (hord : ord.Valid)
+    {fuel : Nat} {path : List Str} {b : Block K} {keys : List K} {dir : Dir K} {name : Str} {out : Link}
+    (h : (verify env ord (fuel + 1) path b keys dir name).1 = .ok out) :
+    ∃ (L : Layout K) (links : List (Step × List (Str × Link))), b.signed = .layout L ∧
+      allSome (stepLinks (accepts env fuel) env path L dir) L.steps = some links ∧
+      ∀ v ∈ links, 2 ≤ v.1.threshold → ∀ e ∈ v.2, ∀ e' ∈ v.2, agree e.2 e'.2 = true := by
+  obtain ⟨L, links, _, _, hb, _, _, _, _, hl, hag, _⟩ :=
+    ((c02_success_iff_every_clause_holds env ord hord fuel path b keys dir name out).mp h).clauses
+  refine ⟨L, links, hb, hl, ?_⟩
+  intro v hv ht e he e' he'
+  have := List.all_eq_true.mp hag v hv
+  unfold agreeing at this
+  have hnt : ¬ v.1.threshold ≤ 1 := by omega
+  simp only [hnt, decide_false, Bool.false_or, List.all_eq_true] at this
+  exact this e he e' he'
+
+/-- C08 from the specification: success means every inspection's command ran and exited with status 0 -/
+theorem c08_accepted_inspections_exited_with_zero {env : Env K} {ord : Ord} (hord : ord.Valid)
+    {fuel : Nat} {path : List Str} {b : Block K} {keys : List K} {dir : Dir K} {name : Str} {out : Link}
+    (h : (verify env ord (fuel + 1) path b keys dir name).1 = .ok out) :
+    ∃ L, b.signed = .layout L ∧ ∀ i ∈ L.inspect, ∃ l, env.run path i = some (0, l) := by
+  obtain ⟨L, _, _, insp, hb, _, _, _, _, _, _, _, _, hi, _⟩ :=
+    ((c02_success_iff_every_clause_holds env ord hord fuel path b keys dir name out).mp h).clauses
+  refine ⟨L, hb, ?_⟩
+  intro i hi'
+  have := (allSome_eq_some hi).2 i hi'
+  unfold inspected at this
+  cases hr : env.run path i with
+  | none => rw [hr] at this; cases this
+  | some r =>
+    obtain ⟨status, l⟩ := r
+    rw [hr] at this
+    simp only at this
+    by_cases h0 : status = 0
+    · subst h0; exact ⟨l, rfl⟩
+    · simp [h0] at this
+
+/-- C15 from the specification: a delegated layout among the counted evidence stands for the summary of
+    its own acceptance - one level down, with the one key it is filed under, against the
+    sub-directory named after the step and that key's id prefix, under the step's name -/
+theorem c15_accepted_sublayouts_are_accepted {env : Env K} {ord : Ord} (hord : ord.Valid)
+    {fuel : Nat} {path : List Str} {b : Block K} {keys : List K} {dir : Dir K} {name : Str} {out : Link}
+    (h : (verify env ord (fuel + 1) path b keys dir name).1 = .ok out) :
+    ∃ L, b.signed = .layout L ∧ ∀ st ∈ L.steps, ∀ e ∈ (evidence dir st.name).filter (counts env L st),
+      ∀ L', e.2.signed = .layout L' →
+        ∃ k l, lookup e.1 L.keys = some k ∧
+          accepts env fuel (path ++ [st.name ++ '.' :: prefix8 e.1]) e.2 [k]
+            (subDirOf dir (st.name ++ '.' :: prefix8 e.1)) st.name = some l := by
+  obtain ⟨L, links, _, _, hb, _, _, _, _, hl, _⟩ :=
+    ((c02_success_iff_every_clause_holds env ord hord fuel path b keys dir name out).mp h).clauses
+  refine ⟨L, hb, ?_⟩
+  intro st hst e he L' hL'
+  have hs := (allSome_eq_some hl).2 st hst
+  unfold stepLinks at hs
+  simp only at hs
+  split at hs
+  · cases hs
+  · cases ha : allSome (standsFor (accepts env fuel) path L dir st.name) ((evidence dir st.name).filter (counts env L st)) with
+    | none => rw [ha] at hs; cases hs
+    | some ls =>
+      have := (allSome_eq_some ha).2 e he
+      unfold standsFor at this
+      rw [hL'] at this
+      simp only at this
+      cases hk : lookup e.1 L.keys with
+      | none => rw [hk] at this; cases this
+      | some k =>
+        rw [hk] at this
+        simp only at this
+        cases hacc : accepts env fuel (path ++ [st.name ++ '.' :: prefix8 e.1]) e.2 [k]
+            (subDirOf dir (st.name ++ '.' :: prefix8 e.1)) st.name with
+        | none => rw [hacc] at this; cases this
+        | some l => exact ⟨k, l, rfl, hacc⟩
+
+end InToto.VerifySpec
